@@ -466,8 +466,54 @@ def rand_c18(seed, tier, cases=None):
     return out
 
 
+def extra_c18(P, ctx):
+    """Advisory symbolic leg: Apalache proves the two round-trip lemmas on the transcription
+    NtpTimeApa.tla (unbounded integers); the transcription is bound to the code by exact
+    agreement with the raw NTP values recorded at the sampled points. Never a verdict."""
+    import json
+    import os
+    import shutil
+    import subprocess
+    cov = {"apalache": {"obligations": 2, "discharged": 0, "outcome": "not run"}}
+    d = os.path.join(ctx["work"], "apa")
+    os.makedirs(d, exist_ok=True)
+    shutil.copy(os.path.join(ctx["sdir"], "NtpTimeApa.tla"), d)
+    try:
+        r = subprocess.run(["apalache-mc", "check", "--init=Init", "--next=Next", "--inv=Inv", "--length=0", "NtpTimeApa.tla"],
+                           cwd=d, capture_output=True, text=True, timeout=180)
+        ok = "The outcome is: NoError" in r.stdout
+        cov["apalache"].update(outcome="NoError" if ok else "not proved", discharged=2 if ok else 0,
+                               cmd="apalache-mc check --init=Init --next=Next --inv=Inv --length=0 NtpTimeApa.tla",
+                               lemmas=["0 <= t - ToTime(ToNtp(t)) <= 1 for all t in NTP era 0", "0 <= d - FromQ(ToQ(d)) <= 1 for all |d| < 2^31 s"])
+    except Exception as e:  # advisory leg
+        cov["apalache"]["outcome"] = "error: %r" % (e,)
+    # binding: transcription == code on every sampled capture instant
+    def to_ntp(ns):
+        return ((ns // 10**9) + 2208988800) * 2**32 + ((ns % 10**9) * 2**32) // 10**9
+    def to_time(n):
+        return ((n // 2**32) - 2208988800) * 10**9 + ((n % 2**32) * 10**9) // 2**32
+    pts = mism = 0
+    tp = os.path.join(ctx["work"], "trace-main.ndjson")
+    if os.path.exists(tp):
+        for line in open(tp):
+            if '"ev":"capture"' not in line:
+                continue
+            e = json.loads(line)
+            ns = e["t"][0] * 10**9 + e["t"][1]
+            raw = 0
+            for b in e["ntp"]:
+                raw = raw * 256 + b
+            back = e["back"][0] * 10**9 + e["back"][1]
+            pts += 1
+            if to_ntp(ns) != raw or to_time(raw) != back:
+                mism += 1
+    cov["apalache"].update(binding_points=pts, binding_mismatches=mism,
+                           binding="transcription matches the code on all sampled points" if pts and not mism else "MODEL NO LONGER MATCHES THE CODE (advisory leg only)")
+    return cov, []
+
+
 prop(dict(
-    id="C18", fam="C18",
+    id="C18", fam="C18", extra=extra_c18,
     mc=[("NtpTimeMC.tla", "NtpTimeMC.cfg", {"thorough": {"M": "64", "MaxT": "300", "MaxD": "64"}})],
     gen=[("NtpTimeGen.tla", "NtpTimeGen.cfg", {"thorough": {"WrapKs": "{1, 2, 3, 1000, 1001, 13281250, 26562500, 26562501, 30000000, 32593412, 32593413, 32593414}"}})],
     rand=rand_c18,
